@@ -12,7 +12,7 @@ def main() -> int:
     import spsdk
 
     print("spsdk from", os.path.dirname(spsdk.__file__))
-    for name in ("vf.ref.aes", "vf.ref.crc", "vf.ref.ecdsa"):
+    for name in ("vf.ref.aes", "vf.ref.crc", "vf.ref.kdf", "vf.ref.ecdsa", "vf.ref.rsa", "vf.ref.der", "vf.ref.bd_sem", "vf.engine.grammar"):
         try:
             m = importlib.import_module(name)
         except ModuleNotFoundError:
